@@ -44,6 +44,10 @@ ASSUMPTIONS = [
     "iterm2 images are judged on Konsole only (elsewhere they are part of the text cells and the "
     "screen does not track them); on a terminal without graphics support only block images exist "
     "and no graphics command may be written",
+    "canvas lifetime: 'release' = the application drops its reference to the canvas it passed last (as urwid's "
+    "MainLoop does); the harness lets go of the object when the next frame is rendered (after building the "
+    "widget tree, before render) - no screen method runs in between, so the library cannot tell the difference, "
+    "and the next canvas is allocated right after the free (the condition under which CPython reuses the address)",
     "mechanism-level clauses compare UrwidImageScreen._ti_image_cviews, the delete commands and the "
     "change of the disguise text with UrwidScreenCore!LibDiff (anchors of the property)",
 ]
@@ -108,6 +112,8 @@ def run_models(rep: Report) -> None:
             need += ["RedrawBad"]
         if name == "winch":
             need += ["Sigwinch", "ResizeHandled"]
+        if name in ("winch", "bad"):
+            need += ["ReleaseCanvas"]
         vac = [a for a in need if cov.get(a, (0, 0))[1] == 0]
         if vac and not res.violated:
             raise MachineryError(f"vacuous model {cfg}: actions never taken: {vac}")
@@ -159,6 +165,8 @@ def apply_op(w: cw.World, op: dict) -> str:
         w.winch()
     elif k == "handled":
         w.handled()
+    elif k == "release":
+        w.release()
     elif k == "same":
         return w.same(op["lay"])
     else:
@@ -584,6 +592,8 @@ def random_script(rng: random.Random, ident: str, length: int, *, leaf: bool, ba
                 continue
             if bad and rng.random() < 0.06:
                 ops.append(dict(op="bad", lay=lay))
+                if lay["k"] not in ("txt", "img") and rng.random() < 0.5:
+                    ops.append(dict(op="release"))  # nobody holds the canvas of a failed frame
                 ops.append(dict(op="clear"))
             else:
                 ops.append(dict(op="redraw", lay=lay))
@@ -612,7 +622,15 @@ def random_script(rng: random.Random, ident: str, length: int, *, leaf: bool, ba
                     nxt = cand
                 ops.append(dict(op="lost", lay=nxt))
             ops.append(dict(op="handled"))
-            ops.append(dict(op="same", lay=nxt))
+            if nxt is not last and rng.random() < 0.4:
+                # the application did not keep the dropped frame's canvas: the next frame is a NEW canvas
+                ops.append(dict(op="release"))
+                cand = g.mutate(nxt) if rng.random() < 0.7 else nxt
+                if wf(cand, g.live, cols, rows) and cand["k"] not in ("txt", "img"):
+                    nxt = cand
+                ops.append(dict(op="redraw", lay=nxt))
+            else:
+                ops.append(dict(op="same", lay=nxt))
             last = nxt
         elif x < 0.74:
             ops.append(dict(op="clear"))
@@ -630,6 +648,57 @@ def random_script(rng: random.Random, ident: str, length: int, *, leaf: bool, ba
         else:
             new()
     return dict(ident=ident, cols=cols, rows=rows, ops=ops, source="seeded")
+
+
+def lifetime_script(rng: random.Random, ident: str, rounds: int) -> dict:
+    """Canvas LIFETIME around frames urwid does not paint: every round draws a frame, then one or two frames
+    that are dropped (resize pending) or one that fails, RELEASES the canvas of the unpainted frame (as an
+    application that renders a fresh canvas per frame and keeps none does), and draws two more frames with
+    new canvases.  The unpainted frame's canvas is held by nobody and dies; the next top-level canvas is
+    allocated right after (World.release / World.redraw), which is when CPython hands out the same address
+    again - not in every round, hence many rounds.  Every redraw is judged as any other."""
+    cols, rows = rng.choice([(8, 5), (10, 6), (12, 7)])
+    g = Gen(rng, ident, cols, rows)
+    ops = []
+    for _ in range(rng.randint(3, 4)):
+        style = rng.choice(g.styles())
+        nw, nh = rng.choice([n for n in NATS if n[0] <= cols - 2 and n[1] <= rows - 2])
+        g.nwid += 1
+        g.live[g.nwid] = (style, nw, nh)
+        ops.append(dict(op="new", style=style, nw=nw, nh=nh, sub=rng.choice([0, 0, 1, 2]),
+                        fs=fs_for(style, rng.randrange(100))))
+    ops.append(dict(op="start"))
+
+    def frame(prev=None):
+        for _ in range(20):
+            lay = g.mutate(prev) if prev is not None and rng.random() < 0.4 else {
+                "k": "pile", "items": [{"n": rows - 1, "c": g.box(cols, rows - 1)}, {"n": 1, "c": g.txt()}]}
+            if wf(lay, g.live, cols, rows) and lay["k"] not in ("txt", "img"):
+                return lay
+        return {"k": "pile", "items": [{"n": rows - 1, "c": g.txt()}, {"n": 1, "c": g.txt()}]}
+
+    last = None
+    for _ in range(rounds):
+        last = frame(last)
+        ops.append(dict(op="redraw", lay=last))
+        if ident != "other" and rng.random() < 0.25:
+            last = frame(last)
+            ops.append(dict(op="bad", lay=last))
+            ops.append(dict(op="release"))
+            ops.append(dict(op="clear"))
+        else:
+            ops.append(dict(op="winch"))
+            for k in range(rng.choice([1, 1, 2])):
+                if k:
+                    ops.append(dict(op="release"))
+                last = frame(last)
+                ops.append(dict(op="lost", lay=last))
+            ops.append(dict(op="handled"))
+            ops.append(dict(op="release"))
+        for _ in range(2):
+            last = frame(last)
+            ops.append(dict(op="redraw", lay=last))
+    return dict(ident=ident, cols=cols, rows=rows, ops=ops, source="seeded:canvas-lifetime")
 
 
 # ------------------------------------------------------------------------- judging
@@ -669,7 +738,7 @@ def validate(traces: list[dict], name: str, batch: int = 40, parallel: int = 6, 
 
 
 API = {"redraw": "draw_screen", "same": "draw_screen", "bad": "draw_screen", "lost": "draw_screen",
-       "dropped-frame": "draw_screen", "winch": "SIGWINCH", "handled": "resize-handled", "start": "start", "stop": "stop",
+       "dropped-frame": "draw_screen", "after-released-canvas": "draw_screen", "release": "canvas-released", "winch": "SIGWINCH", "handled": "resize-handled", "start": "start", "stop": "stop",
        "clear": "clear", "new": "UrwidImage", "drop": "UrwidImage.__del__", "inval": "UrwidImage",
        "clear_images": "clear_images", "clear_images-now": "clear_images"}
 
@@ -679,7 +748,8 @@ MACHINERY = {"bad-layout", "unexpected-output"}
 def signature(kind: dict, ident: str) -> str:
     v, ctx = kind["v"], kind["ctx"]
     api = {"composite": "draw_screen", "non-composite": "draw_screen", "non-composite-after-images": "draw_screen",
-           "failing-draw": "draw_screen", "dropped-frame": "draw_screen"}.get(ctx, API.get(ctx, ctx))
+           "failing-draw": "draw_screen", "dropped-frame": "draw_screen",
+           "after-released-canvas": "draw_screen"}.get(ctx, API.get(ctx, ctx))
     if v == "exception":
         return f"{api}:{ctx}:{kind['info']}"
     if v.startswith("alloc-") or v.startswith("z-"):
@@ -822,7 +892,8 @@ def main(rep: Report, replay: dict | None) -> None:
         "histories: every edge of the coarse-view edge dump of UrwidScreen (layout on screen x next "
         "operation, 68 layouts) and of UrwidAlloc replayed against the real code + seeded random "
         "histories (random well-formed urwid trees, creation/drop/invalidate, start/stop/clear, same "
-        "canvas, failing draw); distinct_nontrivial = distinct (terminal identity, operation, layout) "
+        "canvas, failing draw, frames dropped while a resize is pending, canvases of unpainted frames released "
+        "by the application before the next frame = canvas lifetime); distinct_nontrivial = distinct (terminal identity, operation, layout) "
         "triples drawn through the real draw_screen and judged by TLC"
     )
     rep.extra["judged"] = {}
@@ -880,6 +951,16 @@ def main(rep: Report, replay: dict | None) -> None:
         scn["seed"] = rng.randrange(1 << 30)
         trace, _ = run_script(scn)
         items.append({"scn": scn, "trace": trace})
+    # canvas lifetime: long histories of rounds around unpainted frames whose canvases nobody keeps
+    nl, rounds = (4, 16) if quick else (40, 32)
+    rng = random.Random(rep.seed * 7411 + 1801)
+    for i in range(nl):
+        scn = lifetime_script(rng, ["kitty", "konsole", "forced", "kitty"][i % 4], rounds)
+        scn["seed"] = rng.randrange(1 << 30)
+        trace, _ = run_script(scn)
+        # (long histories: spread over the early trace batches instead of making the last one a straggler)
+        items.insert(min(len(items), 5 + 32 * i) if quick else len(items), {"scn": scn, "trace": trace})
+    rep.extra["canvas_lifetime"] = {"histories": nl, "rounds_each": rounds}
     rep.extra["t_seeded"] = round(time.time() - t0, 1)
 
     t0 = time.time()
